@@ -138,8 +138,8 @@ def check(ctx):
     quick = ctx.tier == "quick"
     subprocess.run(["gcc", "-O2", "-w", "-o", os.path.join(build.BUILD_ROOT, "sysfi"),
                     os.path.join(os.path.dirname(os.path.dirname(__file__)), "sysfi.c")], check=True)
-    max_depth = 4 if quick else 64
-    kill_depth = 2 if quick else 64          # kills are explored from states up to this depth
+    max_depth = 6 if quick else 64
+    kill_depth = 3 if quick else 64          # kills are explored from states up to this depth
     with run.Pool() as pool:
         # 1. content alphabet: closure of U under F_A, F_B (reference: plain -f runs to stdout)
         contents = list(U)
